@@ -371,6 +371,22 @@ theorem evItems_velts_toks (ctx : Ctx) (own) (pg : Pages) (l : List VElt) (h : â
     | ext r => exact absurd (h _ List.mem_cons_self) (by simp [strOrRef])
     | tok r => exact absurd (h _ List.mem_cons_self) (by simp [strOrRef])
 
+theorem opqs_velts (l : List VElt) (h : âˆ€ e âˆˆ l, strOrRef e) : opqsItems (l.flatMap itemsOfVElt) = [] := by
+  induction l with
+  | nil => simp [opqsItems_nil]
+  | cons e es ih =>
+    have ih' := ih (fun x hx => h x (List.mem_cons_of_mem _ hx))
+    rw [List.flatMap_cons, opqsItems_append, ih', List.append_nil]
+    cases e with
+    | str s =>
+      simp only [itemsOfVElt]
+      split
+      Â· rw [opqsItems_cons, opqsItem_str, opqsItems_nil]; rfl
+      Â· rw [opqsItems_nil]
+    | ref o => simp only [itemsOfVElt]; rw [opqsItems_cons, opqsItem_str, opqsItems_nil]; rfl
+    | ext r => exact absurd (h _ List.mem_cons_self) (by simp [strOrRef])
+    | tok r => exact absurd (h _ List.mem_cons_self) (by simp [strOrRef])
+
 /-- No aliases in the tag table: the first row with a row's page and token has the same name, and
     names are NUL-free. (False for ActiveSync only: two names share a token there, which is the
     "earlier alias" normalisation of C03.) -/
